@@ -307,6 +307,7 @@ pub fn generate_soak(seed: u64) -> RunSpec {
         decisions: None,
         fresh_threads: rng.chance(50, 100),
         late: None,
+        jumps: vec![],
     }
 }
 
@@ -636,6 +637,47 @@ pub fn generate(seed: u64, flavor: &str) -> RunSpec {
         scripts.push(ops);
     }
 
+    // F11: simulated clock jumps inside calls, and simulated time passing between operations
+    let mut jumps = Vec::new();
+    if rng.chance(8, 100) {
+        for _ in 0..rng.range(1, 3) {
+            let t = rng.below(threads);
+            if scripts[t].is_empty() {
+                continue;
+            }
+            let op = rng.below(scripts[t].len());
+            let poll = match &scripts[t][op] {
+                Op::Next { n, .. } => rng.below(*n),
+                Op::Drain { .. } => rng.below(3),
+                _ => 0,
+            };
+            jumps.push(ClockJump {
+                thread: t,
+                op,
+                poll,
+                step: 1 + rng.below(60) as u64,
+                ms: *rng.pick(&[5u64, 50, 500, 5_000, 3_600_000]),
+            });
+        }
+        for (t, sc) in scripts.iter_mut().enumerate() {
+            let mut i = if t == 0 { setup_ops.max(1) } else { 1 };
+            while i < sc.len() {
+                if rng.chance(25, 100) {
+                    sc.insert(
+                        i,
+                        Op::ClockAdvance {
+                            ms: *rng.pick(&[1u64, 20, 200, 2_000, 120_000]),
+                        },
+                    );
+                    i += 1;
+                }
+                i += 1;
+            }
+        }
+        // inserted operations shift the indices the plans refer to: recompute is not needed
+        // for correctness (a plan that points at another operation is still a plan), but
+        // set-up compiles must stay in front
+    }
     let fresh_threads = rng.chance(30, 100);
     // F10: a late starter that only begins after another caller thread has exited
     let late = if threads >= 2 && rng.chance(if fresh_threads { 45 } else { 10 }, 100) {
@@ -694,5 +736,6 @@ pub fn generate(seed: u64, flavor: &str) -> RunSpec {
         decisions: None,
         fresh_threads,
         late,
+        jumps,
     }
 }
